@@ -262,6 +262,19 @@ func specs(quick bool) []yangval.Spec {
 	out = append(out, u1, u2, u3, un(u8a, u8b), un(u8b, u8a), un(sa, sb), un(sb, sa, u8b), un(d1, d2), un(d2, d1), un(e1, e2), un(e2, e1),
 		un(yangval.Spec{Kind: "boolean"}, un(u8a, u8b)), un(un(u8a, sa), un(u8b, sb)), un(u8a, u8a), un(u8a, u8b, u8a),
 		un(yangval.Spec{Kind: "int", Bits: 8}, sl), un(sl, u8b), un(yangval.Spec{Kind: "boolean"}, un(sl2, u8a)), un(sl, sl2), un(e1, sl2))
+	// every restriction with custom error statements again with the error-message alone and with the
+	// error-app-tag alone (the two are independent), and a pattern on its own carrying each
+	for _, sp := range append([]yangval.Spec{}, out...) {
+		if sp.Msg != "" && sp.Tag != "" {
+			m, t := sp, sp
+			m.Tag, t.Msg = "", ""
+			out = append(out, m, t)
+		}
+	}
+	for _, mt := range [][2]string{{"only message", ""}, {"", "only-tag"}, {"both", "both-tag"}} {
+		sp := yangval.Spec{Kind: "string", Patterns: []string{"[a-c]+"}, Msg: mt[0], Tag: mt[1]}
+		out = append(out, sp)
+	}
 	return out
 }
 
